@@ -1092,6 +1092,10 @@ raw_case(long idx, vf_rng *r)
 		nng_aio_cancel(daio);
 		nng_aio_wait(daio);
 		nng_aio_free(daio);
+		// the device's callback reaps the device after completing our aio;
+		// nng_fini does not wait for a running task (found here, belongs to
+		// C10): do not let it race with the nng_fini below
+		vf_quiesce(1, 10000);
 	}
 	close_all();
 
@@ -1323,7 +1327,7 @@ main(int argc, char **argv)
 		vf_rng r;
 		if (!vf_want_case(idx)) continue;
 		vf_rng_seed(&r, vf_seed, (uint64_t) idx);
-		vf_watchdog(180);
+		vf_watchdog(!strcmp(vf_mode, "noblock") ? 90 : 180);
 		if (!strcmp(vf_mode, "raw")) {
 			raw_case(idx, &r);
 		} else if (!strcmp(vf_mode, "noblock")) {
@@ -1333,12 +1337,14 @@ main(int argc, char **argv)
 		}
 		vf_stat("cases", 1);
 		if ((idx & 7) == 7) {
+			vf_quiesce(1, 10000);
 			vf_nng_fini("C09");
 			vf_nng_init(4, 2, 2);
 		}
 	}
 	vf_stat("raw_headers_checked", atomic_load(&fwd_hdr_ok));
 	vf_stat("raw_forwarded", atomic_load(&fwd_count));
+	vf_quiesce(1, 10000);
 	vf_nng_fini("C09");
 	return vf_finish();
 }
